@@ -77,6 +77,19 @@ def _strategy(draw):
                                         "wacc": 0.0, "start": None, "end": None})
                     spec["internal_only"] = True
                 break
+    elif r == 2:
+        # an asset of the portfolio carries the same name as an asset wrapped inside a structured asset (names have to be
+        # unique within each portfolio only)
+        if not any(a["type"] == "structured" for a in spec["assets"]):
+            cx_ = gen.Cx(spec["grid"], build.all_nodes(spec), spec["prices"])
+            spec["assets"].insert(0, gen.a_structured(draw, cx_, "zs", with_window=False))
+        sa = [a for a in spec["assets"] if a["type"] == "structured"][0]
+        inner = draw(st.sampled_from([x for x in sa["assets"] if x["type"] != "structured"] or sa["assets"]))
+        if inner["name"] not in [a["name"] for a in spec["assets"]]:
+            spec["assets"].append({"type": "simple", "name": inner["name"], "nodes": [build.all_nodes(spec)[0]],
+                                   "price": sorted(k for k in spec["prices"] if k.startswith("p"))[0], "min_cap": -1.0, "max_cap": 1.0,
+                                   "extra_costs": 0.125, "wacc": 0.0, "start": None, "end": None})
+            spec["same_name_as_wrapped"] = True
     return spec
 
 
@@ -101,7 +114,8 @@ def check(spec):
     cls = obs.classes_of(spec)
     out.label(*["class:" + c for c in set(cls)])
     out.label("build:split" if split else "build:monolithic", "last_asset_outside" if spec.get("last_outside") else None,
-              "structured_internal_only" if spec.get("internal_only") else None)
+              "structured_internal_only" if spec.get("internal_only") else None,
+              "same_name_as_wrapped_asset" if spec.get("same_name_as_wrapped") else None)
     if is_err(r.op):
         return out.drop("setup_error:" + r.op.kind)
     res = r.optimize()
